@@ -953,3 +953,57 @@ func ruleUnionLiterals(c *Ctx) {
 	c.count("union_literals", n)
 	c.floor("tagged-union literals", n, 150)
 }
+
+// ruleSmallDefinitions (C14/C15): three one-line definitions everything above relies on.
+//   - StatusCode.IsSuccessful ⇔ 20000 ≤ s < 30000 (api.Process turns every other status into an error);
+//   - Cursor.Encode signs claims that carry the cursor's Next request; Cursor.Decode copies the
+//     verified claims' Next back.
+func ruleSmallDefinitions(c *Ctx) {
+	pk := c.P.Pkg(pkgTApi)
+	if pk == nil {
+		c.und("definitions", 0, "t_api not loaded")
+		return
+	}
+	info := pk.TypesInfo
+	if fd := funcDecl(pk, "StatusCode", "IsSuccessful"); fd == nil || len(fd.Body.List) != 1 {
+		c.und("definitions/is-successful", 0, "StatusCode.IsSuccessful not found or not a single return")
+	} else {
+		got := ""
+		if rs, ok := fd.Body.List[0].(*ast.ReturnStmt); ok && len(rs.Results) == 1 {
+			env := newProvEnv(pk, fd)
+			atoms := env.condAtoms(rs.Results[0], false)
+			sort.Strings(atoms)
+			got = strings.Join(atoms, " ∧ ")
+		}
+		want := "(20000 <= param:s) ∧ (param:s < 30000)"
+		o := c.check(got == want, "definitions/is-successful", fd.Pos(), "successful ⇔ 20000 ≤ status < 30000", "StatusCode.IsSuccessful is no longer `20000 ≤ s < 30000`: api.Process would hand non-success outcomes to the front ends as results (or successes as errors)")
+		if got != want {
+			o.Expected, o.Found = want, got
+		}
+	}
+	enc := funcDecl(pk, "Cursor", "Encode")
+	dec := funcDecl(pk, "Cursor", "Decode")
+	if enc == nil || dec == nil {
+		c.und("definitions/cursor-next", 0, "Cursor.Encode / Decode not found")
+		return
+	}
+	okEnc := false
+	ast.Inspect(enc.Body, func(n ast.Node) bool {
+		if cl, ok := n.(*ast.CompositeLit); ok && strings.HasPrefix(namedName(info.Types[cl].Type), "Claims") {
+			for _, el := range cl.Elts {
+				if kv, ok := el.(*ast.KeyValueExpr); ok && exprString(kv.Key) == "Next" && strings.HasSuffix(exprString(kv.Value), ".Next") {
+					okEnc = true
+				}
+			}
+		}
+		return true
+	})
+	okDec := false
+	ast.Inspect(dec.Body, func(n ast.Node) bool {
+		if as, ok := n.(*ast.AssignStmt); ok && len(as.Lhs) == 1 && len(as.Rhs) == 1 && strings.HasSuffix(exprString(as.Lhs[0]), ".Next") && strings.HasSuffix(exprString(as.Rhs[0]), ".Next") {
+			okDec = true
+		}
+		return true
+	})
+	c.check(okEnc && okDec, "definitions/cursor-next", enc.Pos(), "a cursor token carries the next request and decoding restores it", "the cursor token no longer carries (or restores) the next request: following a cursor cannot continue the query")
+}
